@@ -145,6 +145,9 @@ fn cases(tier: Tier) -> Vec<FileCase> {
                             db.tables[1].rows[2][1] = Val::Str(big);
                             // and one of 140000 bytes referenced once (count 1, high word 2)
                             db.tables[0].rows[1][2] = Val::Str(format!("{}{}", text[0], "y".repeat(140000)));
+                            // both sides of the 16-bit length boundary
+                            db.tables[0].rows[0][2] = Val::Str("z".repeat(65535));
+                            db.tables[0].rows[2][2] = Val::Str("w".repeat(65536));
                         }
                         db.summary.order = order;
                         db.summary.extra_padding = pad;
@@ -153,6 +156,12 @@ fn cases(tier: Tier) -> Vec<FileCase> {
                         db.summary.codepage = Some(if tcp == 65001 { 65001u32 as u16 } else { tcp as u16 });
                         db.summary.author = Some(text[2].clone());
                         db.summary.comments = Some(text[3].clone());
+                        // half of the layouts are version-1 sets carrying a one-byte
+                        // integer property that is neither first nor last
+                        if pad == 4 {
+                            db.summary.format_version = 1;
+                            db.summary.extra_i1 = Some((10, -7));
+                        }
                         out.push(FileCase { label: format!("cp{}/pool-{}/props-{:?}/pad{}/off{}", cp, pname, order, pad, so), group: "text", db });
                     }
                 }
